@@ -137,6 +137,19 @@ def stress_case(item):
             r, _ = pj.run(['redo', '-j%d' % j, 'top'])
             rs = [r]
             expect_files = ['top', 'x', 'y'] + leaves
+        elif kind == 'cheat':
+            # the followed job waits for a locked target, finds every slot taken afterwards and borrows one; with `redo`
+            # (forced) it then starts a job on the borrowed slot
+            _, shape, slots, own, seed = item
+            from . import c08
+            files, top = c08.make_graph(shape, 4, rnd, 'ok')
+            pj = scen.Project(files, 'c09cheat')
+            if own:
+                r, _ = pj.run(['redo', '-j%d' % slots, top])
+            else:
+                r, _ = pj.run(['redo-ifchange', top], slots=slots)
+            rs = [r]
+            expect_files = [top, 'a']
         elif kind == 'contend':
             _, ninv, j, seed = item
             files, leaves = _fan_files(12, True, True)
@@ -167,6 +180,7 @@ def stress_case(item):
         tr = pj.trace_text()
         obs['scripts'] = tr.count('\nS ') + (1 if tr.startswith('S ') else 0)
         obs['wakeups'] = tr.count(' woke ')
+        obs['borrowed_slots'] = tr.count(' cheat_take ')
         rd = set(re.findall(r'woke ready=\[([^\]]*)\]', tr))
         sets['ready_set_sizes'] = sorted(set(str(len([x for x in s.split(',') if x])) for s in rd))
         sets['stress_kinds'] = [kind]
@@ -227,6 +241,12 @@ def stress_items(tier, rnd):
         for j in (2, 4):
             for rep in range(2 if quick else 12):
                 items.append(('contend', ninv, j, rep))
+    for nsh in (1, 2, 3):
+        for extra in (1, 2):
+            for own in (True, False):
+                for f in ('cheat', 'cheatf'):
+                    for rep in range(1 if quick else 5):
+                        items.append(('cheat', '%s%d' % (f, nsh), nsh + extra, own, rep))
     # the tuples carry a repetition index only to make them distinct
     return [it[:6] if it[0] == 'fan' else (it[:3] if it[0] == 'cross' else it) for it in items]
 
@@ -242,7 +262,7 @@ RULE = ('layer 1 (systematic): a select()-gate in one redo process lets the harn
         'step to a depth bound, each path replayed from scratch (k<=3 children, 1-3 job slots, plain and nested one level, with and '
         'without log capture, with a failing child). layer 2 (stress): fans of 16-120 instant/jittered leaves at -j2..16 with own '
         'and inherited jobserver, the same target spelled several times on one command line, a second invocation arriving while a '
-        'target is being built, crossed dependency orders, 2-8 contending invocations, random parallel histories. Oracle: no panic / '
+        'target is being built, crossed dependency orders, 2-8 contending invocations, the followed job borrowing a slot after a lock hand-over (and starting a job on it), random parallel histories. Oracle: no panic / '
         'abort text or status in any redo process, no confirmed stuck state, exit 0 whenever all scripts succeed, tokens conserved '
         'on gate paths. Non-trivial: gate path with >=2 wake-ups, every stress build. Distinct: hash of scenario parameters and the '
         'delivered event sets.')
